@@ -155,6 +155,13 @@ def check(ctx):
     rep.rule('Q5', 'every ordering call in src/gambit is classified armed/exempt')
     rep.trusted += ["np.argsort(kind='stable'|'mergesort') is a stable sort on every platform; the default kind is not", 'np.argmin returns the first minimum',
                     'slicing a longer index array to [:N] yields min(N, len) entries']
+    # "does not depend on ... the chunk size": the distance row the list is built from is the same for every chunking (C05-B5 re-evaluated)
+    from . import c05
+    rep.rule('B5', 'C05-B5 re-evaluated: jaccarddist_matrix - one slice selects the reference chunk and the output columns, chunk_slices tiles [0, n), for every chunk size')
+    c05.check_matrix(ctx)
+    rep.rule('Q6', 'QueryResultItem / GenomeMatch are plain records: the list and the distances reported are the values stored (no converter / rewriting hook)')
+    from ..records import check_plain_records
+    check_plain_records(rep, m, 'Q6', ['gambit.query.QueryResultItem', 'gambit.classify.GenomeMatch'], 'the closest-genomes list and its distances')
     fi = m.func('gambit.query.get_result_item')
     rep.functions.add(fi.qualname)
     fn = fi.node
